@@ -94,11 +94,11 @@ Proof. intros ev sc l r sv a b sc1 sc2 HL HR. rewrite (default_strategy ev sc Op
 Lemma sem_count_list ev vs sc a l sc1 rest :
   assoc String.eqb ".count" vs = None -> ev sc a = Ok (VList l, sc1) ->
   eval_call ev vs sc ".count" (a :: rest) = Ok (VInt (Z.of_nat (List.length l)), sc1).
-Proof. intros NV H. unfold eval_call. rewrite NV. cbn [is_dot_func Ascii.eqb Bool.eqb]. cbn. rewrite H. reflexivity. Qed.
+Proof. intros NV H. rewrite eval_call_eq. rewrite NV. cbn [is_dot_func Ascii.eqb Bool.eqb]. cbn. rewrite H. reflexivity. Qed.
 Lemma sem_count_set ev vs sc a l sc1 rest :
   assoc String.eqb ".count" vs = None -> ev sc a = Ok (VSet l, sc1) ->
   eval_call ev vs sc ".count" (a :: rest) = Ok (VInt (Z.of_nat (List.length l)), sc1).
-Proof. intros NV H. unfold eval_call. rewrite NV. cbn. rewrite H. reflexivity. Qed.
+Proof. intros NV H. rewrite eval_call_eq. rewrite NV. cbn. rewrite H. reflexivity. Qed.
 Lemma sem_if ev vs sc c t f b sc1 :
   ev sc c = Ok (VBool b, sc1) -> step ev vs sc (EIf c t f) = if b then ev sc1 t else ev sc1 f.
 Proof. intros H. cbn [step]. rewrite H. reflexivity. Qed.
@@ -294,6 +294,77 @@ Proof.
   intros ev sc xs sv rhs v sc' H. cbn [apply_efun] in H. inv_bind H. destruct a as [out sc1]. injection H as <- <-.
   destruct (where_is_filter _ _ _ _ _ _ _ Ha) as [rs [T ->]]. exists rs. split; [exact T|reflexivity].
 Qed.
+(* where over a MAP (whereMap): the scope variable is bound to the (key, value) pair of each entry; the result is the
+   map of the entries whose predicate evaluated to true *)
+Definition pair_of (kv:string*value) : value := internal_pair (fst kv) (snd kv).
+Theorem where_map_filters : forall ev sc m sv rhs v sc',
+  apply_efun ev G_whereMap sc (VMap m) sv rhs = Ok (v, sc') ->
+  exists rs, iter_trace ev sv rhs (map pair_of m) sc rs sc' /\ v = VMap (pairs_to_map (select (map pair_of m) rs)).
+Proof.
+  intros ev sc m sv rhs v sc' H. cbn [apply_efun] in H. inv_bind H. destruct a as [out sc1]. injection H as <- <-.
+  destruct (where_is_filter _ _ _ _ _ _ _ Ha) as [rs [T ->]]. exists rs. split; [exact T|reflexivity].
+Qed.
+
+Fixpoint select_entries (m:list (string*value)) (rs:list value) : list (string*value) :=
+  match m, rs with
+  | e :: m', r :: rs' => if getB r then e :: select_entries m' rs' else select_entries m' rs'
+  | _, _ => []
+  end.
+Lemma select_pairs m : forall rs, select (map pair_of m) rs = map pair_of (select_entries m rs).
+Proof.
+  induction m as [|e m IH]; intros [|r rs]; cbn [map select select_entries]; try reflexivity.
+  destruct (getB r); cbn [map]; rewrite IH; reflexivity.
+Qed.
+(* keys strictly increasing, as in every map value of the model *)
+Inductive key_sorted : list (string*value) -> Prop :=
+| ks_nil : key_sorted []
+| ks_one e : key_sorted [e]
+| ks_cons k v k' v' m : String.compare k k' = Lt -> key_sorted ((k', v') :: m) -> key_sorted ((k, v) :: (k', v') :: m).
+Lemma pairs_to_map_sorted m : key_sorted m -> pairs_to_map (map pair_of m) = m.
+Proof.
+  induction 1 as [|[k v]|k v k' v' m L S IH]; [reflexivity|reflexivity|].
+  change (pairs_to_map (map pair_of ((k, v) :: (k', v') :: m))) with (map_put k v (pairs_to_map (map pair_of ((k', v') :: m)))).
+  rewrite IH. cbn [map_put]. rewrite L. reflexivity.
+Qed.
+Lemma compare_lt_trans a b c : String.compare a b = Lt -> String.compare b c = Lt -> String.compare a c = Lt.
+Proof.
+  intros H1 H2. pose proof (OrderedTypeEx.String_as_OT.cmp_lt a b) as [L1 _]. pose proof (OrderedTypeEx.String_as_OT.cmp_lt b c) as [L2 _].
+  pose proof (OrderedTypeEx.String_as_OT.cmp_lt a c) as [_ L3]. apply L3.
+  apply (OrderedTypeEx.String_as_OT.lt_trans _ _ _ (L1 H1) (L2 H2)).
+Qed.
+Lemma select_entries_head : forall m k v, key_sorted ((k, v) :: m) -> forall rs,
+  key_sorted (select_entries m rs) -> key_sorted ((k, v) :: select_entries m rs).
+Proof.
+  (* every key of a selection of m is a key of m, hence above k *)
+  induction m as [|[k1 v1] m IH]; intros k v S rs K.
+  - destruct rs; constructor.
+  - destruct rs as [|r rs]; [constructor|]. inversion S as [| |? ? ? ? ? L S1]; subst.
+    cbn [select_entries] in *. destruct (getB r).
+    + constructor; assumption.
+    + apply IH; [|exact K].
+      destruct m as [|[k2 v2] m]; [constructor|]. inversion S1 as [| |? ? ? ? ? L2 S2]; subst.
+      constructor; [exact (compare_lt_trans _ _ _ L L2)|exact S2].
+Qed.
+Lemma select_entries_sorted : forall m, key_sorted m -> forall rs, key_sorted (select_entries m rs).
+Proof.
+  induction m as [|[k v] m IH]; intros S rs; [destruct rs; constructor|].
+  destruct rs as [|r rs]; [constructor|]. cbn [select_entries].
+  assert (Sm : key_sorted m) by (inversion S; subst; [constructor|assumption]).
+  destruct (getB r); [apply select_entries_head; [exact S|apply IH; exact Sm]|apply IH; exact Sm].
+Qed.
+(* FULL for maps with increasing keys (every map the evaluator builds, as modelled): where over a map IS the
+   sub-map of the entries whose predicate held *)
+Theorem where_map_is_submap : forall ev sc m sv rhs v sc',
+  key_sorted m -> apply_efun ev G_whereMap sc (VMap m) sv rhs = Ok (v, sc') ->
+  exists rs, iter_trace ev sv rhs (map pair_of m) sc rs sc' /\ v = VMap (select_entries m rs).
+Proof.
+  intros ev sc m sv rhs v sc' S H. destruct (where_map_filters _ _ _ _ _ _ _ H) as [rs [T ->]].
+  exists rs. split; [exact T|]. rewrite select_pairs, (pairs_to_map_sorted _ (select_entries_sorted _ S rs)). reflexivity.
+Qed.
+Example where_map_sample :
+  key_sorted [("a", VInt 1); ("b", VInt 5); ("c", VInt 2)].
+Proof. repeat constructor. Qed.
+
 Theorem where_set_filters : forall ev sc xs sv rhs v sc',
   apply_efun ev G_whereSet sc (VSet xs) sv rhs = Ok (v, sc') ->
   exists rs, iter_trace ev sv rhs xs sc rs sc' /\ v = VSet (select xs rs).
